@@ -237,6 +237,9 @@ class History(Machine):
             "clock": s.choice(["advancing", "frozen", "coarse"]),
             "entropy": "sim",
             "faults_enabled": s.chance(0.5),
+            # one build directory for all commands of the history: every command finds the output files of the others
+            # (same names, other lengths) where it is about to write
+            "shared_workdir": s.chance(0.3),
             "fault_kinds": s.subset(["crash", "enospc", "eio_read", "short_read", "short_write", "open_fail", "stat_fail"], 0.6),
         }
         feats = [f for f in gen.ALL_FEATURES if s.chance(0.65)]
@@ -384,6 +387,14 @@ class History(Machine):
                          "plain": blobs[0],
                          "argv": ["encrypt", "encrypt-and-generate", "--firmware", f"{W}/in/fw_a.bin", "--key-name", "k",
                                   "--key-id", "24", "--context", f"{W}/in/keys", "--output-dir", f"{W}/out", "--hash-alg",
+                                  s.choice(_enc.HASHES), "--kms-script", world.KMS_SCRIPT, "--encrypt-script",
+                                  world.ENCRYPT_SCRIPT],
+                         "inputs": blob_inputs() + [{"rel": "in/keys/k.bin", "type": "blob", "name": "aes-k", "size": 32}]})
+        # a second encryption whose artifacts have other lengths (other digest size, other number of size digits)
+        optional.append({"kind": "cli", "label": "encrypt-b", "seed": seed, "compare": "encrypt", "aes": "aes-k",
+                         "plain": blobs[1],
+                         "argv": ["encrypt", "encrypt-and-generate", "--firmware", f"{W}/in/fw_b.bin", "--key-name", "k",
+                                  "--key-id", "0x7fffffe0", "--context", f"{W}/in/keys", "--output-dir", f"{W}/out", "--hash-alg",
                                   s.choice(_enc.HASHES), "--kms-script", world.KMS_SCRIPT, "--encrypt-script",
                                   world.ENCRYPT_SCRIPT],
                          "inputs": blob_inputs() + [{"rel": "in/keys/k.bin", "type": "blob", "name": "aes-k", "size": 32}]})
@@ -571,7 +582,15 @@ class History(Machine):
         if ref is None:
             model["_abstract"] = "no-reference"
             return []
-        o, outputs, stdout = exec_task(host, t, f"p{t.get('wd', j)}", model["bases"], faults=faults, variant=op.get("variant"))
+        shared = bool(host.swarm.get("shared_workdir")) and not t.get("wd") and not t.get("cwd_in")
+        workrel = "pshared" if shared else f"p{t.get('wd', j)}"
+        before = collect(host, workrel) if shared else {}
+        o, outputs, stdout = exec_task(host, t, workrel, model["bases"], faults=faults, variant=op.get("variant"))
+        if shared:
+            # left-overs of other commands that this one neither wrote nor should have written do not count
+            outputs = {k: v for k, v in outputs.items() if k in ref["outputs"] or before.get(k) != v}
+            if before:
+                ex["steps_into_dirty_shared_directory"] = ex.get("steps_into_dirty_shared_directory", 0) + 1
         self.note(model, o)
         label = t["label"]
         ex["labels"][label] = ex["labels"].get(label, 0) + 1
